@@ -129,6 +129,18 @@ class Task(NamedUIDObject):
             # in the case for a CumulativeWorker, select at least one worker
             resource = resource.get_select_workers()
 
+        # a worker has one busy interval per task: it can be required only once by a task,
+        # be it directly, through a selection or as an elementary worker of a cumulative worker
+        if isinstance(resource, SelectWorkers):
+            workers_involved = resource.list_of_workers
+        else:
+            workers_involved = [resource]
+        for worker in workers_involved:
+            if self in worker._busy_intervals:
+                raise ValueError(
+                    f"resource {worker.name} already defined as a (possible) resource for task {self.name}"
+                )
+
         if isinstance(resource, SelectWorkers):
             # loop over each resource
             for worker in resource.list_of_workers:
